@@ -14,7 +14,7 @@ CHECKS = {
             'clients/introducer/persister/merger for small histories; then every recorded execution of the real writer (random batch histories x '
             'fs/in-memory x ice v1/v2 x safe/unsafe, seeded gate schedules) is replayed by TLC through BlugeTrace, which evaluates root = Abs(applied) '
             'after every root replacement and compares every Reader observation made through the public API (count, match-all + stored fields, '
-            'per-id term lookup, sorted doc values) with Abs.', '6 C01'),
+            'per-id term lookup, sorted doc values, dictionary scan) with Abs; callers re-use Batch objects (Reset) in part of the scenarios; after Close every directory is reopened for real and observed again.', '6 C01'),
     'C02': ('TLC: C02_AckedDurable with Crash enabled in every state (the invariant is the quantifier over crash instants). Code: every '
             'execution records directory operations and acknowledgements in one order; BlugeTrace keeps the file model (in-flight item = torn) and '
             'evaluates acked => durable after every event; independently, crash images at every operation boundary plus all torn variants of the '
@@ -23,7 +23,7 @@ CHECKS = {
             'state space: this is how defect D2 was found). Code: crash images (boundaries, every prefix length of snapshot files, sampled prefixes of '
             'segment files, zero-filled) are reopened for real; TLC decides for each result: no process death, success whenever a snapshot had been '
             'completed, content = Abs(some prefix), further batches accepted; crash-recover-continue-crash (depth 2) runs validate the second '
-            'incarnation against the ghost history cut to the recovered prefix.', '6 C03'),
+            'incarnation against the ghost history cut to the recovered prefix; family mergeimg images persisted roots whose segments are not in id order (merges overlapped by batches).', '6 C03'),
     'C04': ('TLC: reference-count model of snapshots and loaded file segments (C04_NoUseAfterClose, C04_ReaderFrozen). Code: several readers of '
             'different ages are held open while batches, merges, persists, removals and Close run; after EVERY released gate each held reader is '
             're-observed through the public API and TLC requires the observation to be identical to the one at acquisition; handle closes are events '
@@ -41,7 +41,7 @@ CHECKS = {
     'C11': ('TLC: C11_Retained, C11_AtLeastN, C11_RootFiles, C11_RemoveSafe, C11_HandlesBalanced, C11_Lock over KeepN in 1..3 with readers holding '
             'superseded segments. Code: every Persist/Load/Remove/closer call goes through the logging directory wrapper; TLC recomputes the deletion '
             'policy from the logged commits (PolicyCommit) and checks at every event: retained snapshots loadable, no removal of a needed or in-use file, '
-            'handles closed exactly once and none left after Close (also for the offline writer: Offline.tla / OfflineTrace.tla, with injected failures), lock released (the directory is reopened immediately), second writer refused (two attempts). In addition Apalache discharges an '
+            'handles closed exactly once and none left after Close (also for the offline writer: Offline.tla / OfflineTrace.tla, with injected failures), lock released (the directory is reopened immediately), second writer refused (two attempts); family filefaults places injected failures on the removals of the clean-up. In addition Apalache discharges an '
             'inductive invariant of the policy core (spec/Policy.tla: Init => IndInv, IndInv and Next => IndInv\', IndInv => C11_Retained and C11_AtLeastN), i.e. retention safety for any number '
             'of commits, clean-ups and failed removals.', '6 C11'),
     'C14': ('TLC: fault actions on the persister and merger directory steps (PFail/MFail) with C14_Surfaced, C14_AckCovers and C01/C02/C03/C04 re-checked. '
@@ -53,7 +53,7 @@ CHECKS = {
             'closing ~> closed under weak fairness in the thorough tier. Code: Close is called by a gated goroutine as soon as callers returned, at '
             'schedule-chosen points in the middle of merges, persists and clean-ups; synctest makes a hang exact (all goroutines durably blocked => '
             'Stuck event => C15_stuck), with gates at the start of persist-swap and merge introductions and with the persister pacing itself against the merger; a free-running family (no gates, '
-            'real parallelism, readers searched by several goroutines at once, reader churn while roots are replaced) is validated by the same specification; a real-time watchdog turns a livelock (spinning goroutine, invisible to synctest) into a verdict; afterwards the directory is reopened for real and must contain every acknowledged batch. The data-race clause '
+            'real parallelism, readers searched by several goroutines at once, reader churn while roots are replaced, a second goroutine calling Close at the same time) is validated by the same specification; a real-time watchdog turns a livelock (spinning goroutine, invisible to synctest) into a verdict; afterwards the directory is reopened for real and must contain every acknowledged batch. The data-race clause '
             'of the property is NOT decided by this technique (see DESIGN 6 C15).', '6 C15'),
 }
 
